@@ -39,6 +39,16 @@ CHECKS = {
         note=TB + " pdfw (harness/internal/pdfw) is an independent writer with a structural self-audit; zlib trusted; generation numbers other than 0/65535 and hybrid files not generated.",
         technique="TLA+ history model + TLC exhaustive enumeration, rendered-file replay, trace validation of lookup sequences",
     ),
+    "C05": dict(
+        text="Filters.tla defines the PNG predictors, TIFF predictor 2, ASCIIHex and ASCII85 (base-85 arithmetic by long division on "
+             "bytes) as pure encoder/decoder pairs; TLC checks Dec(Enc(x)) = x for the reference over the bounded space while it "
+             "enumerates (payload, geometry, per-row filter types, pipeline, spelling policy) cases with spec-computed encoded bytes, "
+             "including the undecodable ones. Each case goes through core.Stream.Decode (single filters, chains, DecodeParms shapes, "
+             "abbreviations). Large recorded images are validated row by row by FiltersTrace.tla against PngDecRow/TiffDecRow.",
+        design_ref="4.5",
+        note=TB + " zlib trusted; BitsPerComponent != 8, LZW/RunLength/CCITT/DCT out of scope.",
+        technique="TLA+ reference codecs with TLC-checked round trip, case replay through Stream.Decode, row-wise trace validation",
+    ),
     "C06": dict(
         text="PdfSyntax.tla is the PDF object syntax as a writer: a pushdown generator of well-nested token sequences and "
              "Spell(tokens, policy) giving the bytes for every legal spelling policy (white-space kinds incl. comments, EOL kinds, "
